@@ -9,6 +9,7 @@ def run(ctx, rep):
         "retry path: re-arm timer, poll it once (re-waking the task if it is already due), re-queue the frame by compare-exchange Sent -> Sendable, wake the sender only then, decrement retries_left by exactly one; retries_left written only there and from the constructor argument",
         "a reply nobody waits for any more (expired, dropped, duplicate) is Ok(Ignored) in receive_frame, not an error: the shipped TX/RX tasks end on any Err from receive_frame",
         "RetryBehaviour::retry_count maps None/Count(n)/Forever to 0/n/usize::MAX",
+        "send_blocking changes the slot state only after the send closure returned, never reads the buffer afterwards, and ends in exactly one of mark_sent / release_sending_claim (S4/S6 transmit side)",
         "S7 every plain store to the slot state is made by a sole holder or under reset's unsafe contract (reports the stores that can race with the transmit/receive side)",
     ]
     rep.undecided += ["transmission counts and byte-identical retransmission as observed values", "all positions of a deadline under virtual time"]
@@ -21,6 +22,10 @@ def run(ctx, rep):
         rep.floor("C06 state-change sites" + tag, len(sites), 13)
         slotfsm.s7(prog, rep, "C06", sites, tag)
         slotfsm.s6_poll(prog, rep, "C06", tag)
+        # the transmit side hands the slot on (->Sent: the receive side may now write into it, a retry may requeue it)
+        # only after the network driver has finished reading the bytes, and resolves its claim exactly once
+        slotfsm.s4(prog, rep, "C06", tag, parts=("send_blocking",))
+        slotfsm.s6_send(prog, rep, "C06", tag)
         poll_rules(prog, rep, tag)
         retry_count(prog, rep, tag)
         late_replies(prog, rep, tag)
@@ -88,6 +93,10 @@ def poll_rules(prog, rep, tag):
                         okw_edge = True
             parts["wake-only-if-requeued"] = okw_edge
             parts["in-order"] = inorder
+            # the retry is used up on *every* way out of the expired-timer branch, re-queued or not: a frame the
+            # sender never picks up (or that is still being sent) must still run out of retries and time out
+            rets = [rb for rb in b.return_blocks() if rb in b.reachable_from(arm[0][0])]
+            parts["retry-consumed-on-every-path"] = bool(rets) and all(b.every_path_passes(arm[0][0], rb, {bi}) for rb in rets)
             # new timer made from the stored timeout
             ra = b.stmts(arm[0][0])[arm[0][1]]
             rr = pr._of_rvalue(ra["rv"]) if ra["k"] == "assign" else frozenset()
